@@ -203,6 +203,14 @@ def run(spec):
             lb = [project_media(r) for r in lb if keep(r)]
         diff = first_difference(la, lb)
         late = None
+        if (diff is not None and kind == "media" and getattr(wb, "srtp_unheard_fail", None) and not getattr(wb, "srtp_other_fail", 0)
+                and not getattr(wa, "srtp_unheard_fail", None) and all(q < 0x8000 for q in wb.srtp_unheard_fail.values())):
+            # the wrap run's receiver never heard a source before that source's sequence number wrapped (everything it sent
+            # before was lost): SRTP cannot decrypt such a stream whatever the endpoint does (the rollover counter is not
+            # on the wire; aiortc itself starts every stream in the lower half of the range for this reason) - not an
+            # effect of aiortc's arithmetic, the pair is outside the comparison
+            wa.exempt["wrap_run_first_heard_a_source_after_its_wrap_srtp_cannot_follow"] += 1
+            diff = None
         if kind == "media":
             # a packet that arrives 100 or more positions late restarts the jitter buffer (known finding F24); what
             # happens then depends on the order of the late packets, and a NACK lists them in numeric order, which
